@@ -725,5 +725,12 @@ fn main() {
 			println!("replay violation: {} — {}", v.signature, v.detail);
 		}
 	}
-	finish(&ctx, ev, violations, None);
+	let mut inconclusive: Option<String> = None;
+	// AddressSanitizer: the quick workload of this check once more on an ASan build (real hyper / soketto / tokio IO)
+	if ctx.tier == Tier::Thorough && ctx.replay.is_none() {
+		if let Some(why) = jrv::sanit::merge_asan(jrv::sanit::run_asan("c02", "C02", ctx.seed, Duration::from_secs(2400)), &mut ev, &mut violations) {
+			inconclusive = inconclusive.or(Some(why));
+		}
+	}
+	finish(&ctx, ev, violations, inconclusive);
 }
